@@ -41,6 +41,10 @@ TEMPLATES = {
                "Header of the project\n\n{% for copyright_line in copyright_lines %}\n{{ copyright_line }}\n{% endfor %}\n"
                "{% for contributor_line in contributor_lines %}\nSPDX-FileContributor: {{ contributor_line }}\n{% endfor %}\n\n"
                "{% for expression in spdx_expressions %}\nSPDX-License-Identifier: {{ expression }}\n{% endfor %}\n\nTrailing prose.\n"),
+    # the same text under file names that are not *.jinja2: they are named in full on the command line
+    "custom-html": ("web.html", None),
+    "custom-xml": ("notice.xml", None),
+    "custom-txt": ("plain.txt", None),
     "nocontrib": ("nocontrib.jinja2",
                   "{% for copyright_line in copyright_lines %}\n{{ copyright_line }}\n{% endfor %}\n\n"
                   "{% for expression in spdx_expressions %}\nSPDX-License-Identifier: {{ expression }}\n{% endfor %}\n"),
@@ -65,6 +69,8 @@ def install_templates(root, names=None):
     d = os.path.join(str(root), ".reuse", "templates")
     os.makedirs(d, exist_ok=True)
     for n, (fname, text) in TEMPLATES.items():
+        if text is None:
+            text = TEMPLATES["custom"][1]
         if names is None or n in names:
             with open(os.path.join(d, fname), "w", encoding="utf-8") as fp:
                 fp.write(text)
@@ -72,7 +78,7 @@ def install_templates(root, names=None):
 
 def template_arg(name):
     fname = TEMPLATES[name][0]
-    return fname.split(".")[0]
+    return fname.split(".")[0] if fname.endswith(".jinja2") else fname
 
 
 def read_back(root, relpaths=None):
